@@ -1,17 +1,104 @@
-(* C01 - placeholder while the proofs are being built; replaced below *)
-From Coq Require Import ZArith Lia.
+(* C01 - ECDSA verification and signing are exact over all inputs.
+   Only statements here; proofs are in Proofs/EcdsaProofs.v and Proofs/EcdsaComplete.v.
+   Model: Model/Ecdsa.v (tied to the C code by the correspondence check of ./check C01). *)
+From Coq Require Import ZArith List Bool Lia.
+Require Import Spec.Params Spec.Field Spec.Curve Spec.Bytes.
+Require Import Model.Base Model.Der Model.Ecdsa.
+Require Import Proofs.MathFacts Proofs.EcdsaProofs Proofs.EcdsaComplete Proofs.SecpConsts Proofs.Toy.
+Import ListNotations.
 Local Open Scope Z_scope.
+Notation S := secp256k1.
+
+(* The two x-coordinate comparisons of the verifier decide exactly  x(R) mod n = r. *)
 Theorem verify_two_compares_iff_mod :
-  forall n p x r, 0 < n -> n < p -> p < 2 * n -> 0 <= x < p -> 0 <= r < n ->
-    ((x = r \/ (r < p - n /\ x = r + n)) <-> x mod n = r).
-Proof.
-  intros n p x r Hn Hnp Hp Hx Hr. split.
-  - intros [->|[H ->]].
-    + apply Z.mod_small; lia.
-    + replace (r + n) with (r + 1 * n) by lia. rewrite Z.mod_add by lia. apply Z.mod_small; lia.
-  - intros H. assert (x = n * (x / n) + x mod n) by (apply Z.div_mod; lia).
-    assert (0 <= x / n) by (apply Z.div_pos; lia).
-    assert (x / n < 2) by (apply Z.div_lt_upper_bound; lia).
-    assert (x / n = 0 \/ x / n = 1) as [E|E] by lia; rewrite E in *; lia.
-Qed.
+  forall x r, 0 <= x < cp S -> 0 <= r < cn S ->
+    ((x = r \/ (r < cp S - cn S /\ x = r + cn S)) <-> x mod cn S = r).
+Proof. exact (two_compares_iff_mod S secp_p_pos secp_n_pos secp_n_lt_p secp_p_lt_2n). Qed.
 Print Assumptions verify_two_compares_iff_mod.
+
+(* Verification returns 1 exactly for triples satisfying the ECDSA equation with 1 <= r < n, 1 <= s <= n/2;
+   otherwise 0; no callback for a loadable key. *)
+Theorem ecdsa_verify_exact :
+  forall sigobj msg32 pkobj Q,
+    pk_load pkobj = Some Q -> inr S Q -> 0 <= sig_obj_r sigobj < cn S ->
+    let r := sig_obj_r sigobj in let s := sig_obj_s sigobj in let m := fst (sc_of_b32 S msg32) in
+    (ecdsa_verify S sigobj msg32 pkobj = [AInt 1] <->
+       (r <> 0 /\ s <> 0 /\ s <= cn S / 2 /\
+        exists x y, verify_point S r s Q m = Some (x, y) /\ x mod cn S = r))
+    /\ (ecdsa_verify S sigobj msg32 pkobj = [AInt 1] \/ ecdsa_verify S sigobj msg32 pkobj = [AInt 0]).
+Proof.
+  intros sigobj msg32 pkobj Q HL HQ Hr.
+  exact (ecdsa_verify_exact S secp_p_pos secp_n_pos secp_n_lt_p secp_p_lt_2n sigobj msg32 pkobj Q HL HQ secp_G_inr Hr).
+Qed.
+Print Assumptions ecdsa_verify_exact.
+
+(* A signature object with r = 0 or s = 0 (what failed parses and failed signing leave) never verifies. *)
+Theorem zero_r_or_s_never_verifies :
+  forall sigobj msg32 pkobj, sig_obj_r sigobj = 0 \/ sig_obj_s sigobj = 0 ->
+    ecdsa_verify S sigobj msg32 pkobj = [AInt 0] \/ ecdsa_verify S sigobj msg32 pkobj = [AInt 0; AIll 1].
+Proof. exact (zero_r_or_s_never_verifies S). Qed.
+Print Assumptions zero_r_or_s_never_verifies.
+
+(* Signing with an invalid key (0 or >= n) returns 0 and an all-zero signature, for EVERY nonce function. *)
+Theorem sign_invalid_key_zero :
+  forall kind msg32 seckey data, seckey_of_b32 S seckey = None ->
+    ecdsa_sign S kind msg32 seckey data = [AInt 0; ABytes (zeros 64)] \/ ecdsa_sign S kind msg32 seckey data = abstain.
+Proof. exact (sign_invalid_key S). Qed.
+Print Assumptions sign_invalid_key_zero.
+Theorem sign_recoverable_invalid_key_zero :
+  forall kind msg32 seckey data, seckey_of_b32 S seckey = None ->
+    ecdsa_sign_recoverable S kind msg32 seckey data = [AInt 0; ABytes (zeros 65)] \/ ecdsa_sign_recoverable S kind msg32 seckey data = abstain.
+Proof. exact (sign_recoverable_invalid_key S). Qed.
+Print Assumptions sign_recoverable_invalid_key_zero.
+
+(* A nonce callback that fails at the attempt being made ends signing with failure. *)
+Theorem sign_nonce_fail :
+  forall fuel c kind msg32 seckey data d m, nonce_fn S kind msg32 seckey data c = None ->
+    sign_loop S (Datatypes.S fuel) c kind msg32 seckey data d m = SignFail.
+Proof. exact (sign_loop_nonce_fail S). Qed.
+Print Assumptions sign_nonce_fail.
+
+(* Every outcome of signing: (1, low-S signature) or (0, all-zero object) [or model out of fuel]. *)
+Theorem sign_outcomes_low_s :
+  forall kind msg32 seckey data,
+    (exists r s, ecdsa_sign S kind msg32 seckey data = [AInt 1; ABytes (sig_obj r s)] /\ 0 <= s <= cn S / 2)
+    \/ ecdsa_sign S kind msg32 seckey data = [AInt 0; ABytes (zeros 64)]
+    \/ ecdsa_sign S kind msg32 seckey data = abstain.
+Proof. exact (sign_outcomes S secp_n_pos secp_n_lt_p secp_p_lt_2n secp_n_odd). Qed.
+Print Assumptions sign_outcomes_low_s.
+
+(* What a successful run of the retry loop is: the first attempt whose nonce is a valid scalar giving non-zero r, s;
+   no earlier attempt failed. *)
+Theorem sign_is_first_valid_attempt :
+  forall fuel c kind msg32 seckey data d m r s recid,
+    sign_loop S fuel c kind msg32 seckey data d m = SignOk r s recid ->
+    exists c' nonce32 k, (c <= c')%nat /\ nonce_fn S kind msg32 seckey data c' = Some nonce32 /\
+      seckey_of_b32 S nonce32 = Some k /\ sig_sign S d m k = (true, r, s, recid) /\
+      forall j, (c <= j < c')%nat -> nonce_fn S kind msg32 seckey data j <> None.
+Proof. exact (sign_loop_ok S). Qed.
+Print Assumptions sign_is_first_valid_attempt.
+
+(* RFC 6979 is keyed with msg mod n: congruent messages give identical signatures. *)
+Theorem sign_depends_on_msg_mod_n :
+  forall kind msg32 msg32' seckey data, (kind = 0 \/ kind = 1) ->
+    fst (sc_of_b32 S msg32) = fst (sc_of_b32 S msg32') ->
+    ecdsa_sign S kind msg32 seckey data = ecdsa_sign S kind msg32' seckey data.
+Proof. exact (sign_depends_on_msg_mod_n S). Qed.
+Print Assumptions sign_depends_on_msg_mod_n.
+
+(* [MF] What the signing core produces, the verification core accepts under the key's public key. *)
+Theorem sign_verifies :
+  MathFacts S -> InvFacts S ->
+  forall d m k r s recid, 0 < d < cn S -> 0 <= m < cn S -> 0 < k < cn S ->
+    sig_sign S d m k = (true, r, s, recid) -> sig_verify S r s (pmul S d (G S)) m = true.
+Proof. intros MF IF. exact (sign_verifies S MF IF secp_n_lt_p secp_p_lt_2n secp_G_inr). Qed.
+Print Assumptions sign_verifies.
+
+(* non-vacuity: on the toy curve the premises are theorems and a concrete signature exists *)
+Example sign_verifies_toy :
+  sig_sign toy 5 9 7 = (true, 25, 3, 1) /\ sig_verify toy 25 3 (pmul toy 5 (G toy)) 9 = true.
+Proof. split; vm_compute; reflexivity. Qed.
+Example sign_verifies_toy_by_theorem :
+  forall d m k r s recid, 0 < d < 31 -> 0 <= m < 31 -> 0 < k < 31 ->
+    sig_sign toy d m k = (true, r, s, recid) -> sig_verify toy r s (pmul toy d (G toy)) m = true.
+Proof. exact (Proofs.EcdsaComplete.sign_verifies toy toy_MathFacts toy_InvFacts toy_n_lt_p toy_p_lt_2n toy_G_inr). Qed.
